@@ -25,6 +25,28 @@ FileOf(members, baseIsKey) ==
             \o << <<"m_one", StrNode(<<"l">>)>> >>
             \o (IF res.kind = "plural" THEN [i \in DOMAIN CountToks |-> <<"c" \o ToString(i), StrNode(FkCount(i))>>] ELSE <<>>))
 
+\* ---- several plural keys in one file ------------------------------------------------------------------------------------
+\* six cardinal plurals p1..p6 at the top level and three ordinal plurals q1..q3 inside the group g, each with all six forms,
+\* in every locale: every locale reports its unused forms for EVERY one of them (one diagnostic per (locale, key path, form)),
+\* and the outcome - diagnostics included - is the same on every run.
+MultiTop    == <<"p1", "p2", "p3", "p4", "p5", "p6">>
+MultiNested == <<"q1", "q2", "q3">>
+BaseSym(b)  == CASE b = "p1" -> <<"p", "1">> [] b = "p2" -> <<"p", "2">> [] b = "p3" -> <<"p", "3">> [] b = "p4" -> <<"p", "4">>
+                 [] b = "p5" -> <<"p", "5">> [] b = "p6" -> <<"p", "6">> [] b = "q1" -> <<"q", "1">> [] b = "q2" -> <<"q", "2">>
+                 [] b = "q3" -> <<"q", "3">>
+AllForms    == <<"zero", "one", "two", "few", "many", "other">>
+MultiEntries(bases, ty) ==
+    [n \in 1..(Len(bases) * 6) |->
+        LET b == bases[((n - 1) \div 6) + 1]
+            m == M(AllForms[((n - 1) % 6) + 1], ty) IN
+        <<KeyName(b, m), StrNode(BaseSym(b) \o <<"DASH">> \o FormText(m))>>]
+MultiFile == MapNode(MultiEntries(MultiTop, "cardinal") \o << <<"g", MapNode(MultiEntries(MultiNested, "ordinal"))>> >>)
+MultiCase ==
+    [family |-> "plurals-multi",
+     abs |-> [multi |-> TRUE, top |-> MultiTop, nested |-> MultiNested],
+     cfg |-> [default |-> "en", locales |-> Locs],
+     files |-> [j \in DOMAIN Locs |-> <<Locs[j], MultiFile>>]]
+
 CaseOf(members, baseIsKey) ==
     [family |-> "plurals",
      abs |-> [members |-> members, baseIsKey |-> baseIsKey],
